@@ -485,7 +485,7 @@ def random_spec(r, regime="calibrated", features=None):
     # functions on some transition parameters
     characs = [{"name": "alive", "components": stocks, "denominator": None, "databook": False}]
     if f.get("functions", r.random() < 0.6):
-        cand = [p for p in pars if p["name"] in used and not p["timed"] and p["format"] != "proportion"]
+        cand = [p for p in pars if p["name"] in used and not p["timed"] and p["format"] != "proportion" and not p["name"].startswith("xb")]  # xb*: base of a duration given by a function -- a duration must be constant
         for p in r.sample(cand, min(len(cand), r.choice([1, 2, 3]))):
             a, b = r.choice(stocks), r.choice(stocks)
             k = _val(r, regime if regime != "extreme" else "calibrated", p["format"])
